@@ -1,0 +1,506 @@
+//go:build verif
+
+package immutable
+
+// BOUNDED stand-ins (never counted as proved) for the parts of the trie that are not proved for all inputs
+// (DESIGN.md, "C03 in detail"): mapBitmapIndexedNode.set / delete and MapIterator.
+//
+// Bound: tries of two keys built by the real node code (value node -> set: mergeIntoNode or a collision
+// node), then one more set / delete / a full iteration; the three hash values range over the listed
+// literals (relative order of the level-0 fragments, same slot with a different hash = nested branch,
+// equal hash = collision node), keys, values, the Eq/Hash instance and the mutable flag are symbolic.
+// Plus the conversion of a full bitmap node (17 children) into a hash-array node.
+// The scripts run the real functions (option noghost: without the proof hints injected elsewhere).
+
+//@ import "github.com/csgura/fp/internal/veriflaws"
+//
+//@ ghost
+//@ func trieOf2[K, V any](h fp.Hashable[K], a, b K, va, vb V, ha, hb uint32) mapNode[K, V] {
+//@ 	var r bool
+//@ 	return newMapValueNode(ha, a, va).set(b, vb, 5, hb, h, false, &r)
+//@ }
+//@ func trieConsistent[K any](h fp.Hashable[K], a, b K, ha, hb uint32) bool { // different hashes: different keys
+//@ 	return ha == hb || !h.Eqv(a, b)
+//@ }
+//@ func trieHas[K, V any](n mapNode[K, V], h fp.Hashable[K], k K, hk uint32, v V) bool {
+//@ 	if n == nil {
+//@ 		return false
+//@ 	}
+//@ 	g := n.get(k, 0, hk, h)
+//@ 	return g.IsDefined() && Eq(g.Get(), v)
+//@ }
+//@ func trieLacks[K, V any](n mapNode[K, V], h fp.Hashable[K], k K, hk uint32) bool {
+//@ 	return n == nil || !n.get(k, 0, hk, h).IsDefined()
+//@ }
+//@ func trieRoot[K, V any](h fp.Hashable[K], a, b K, va, vb V, ha, hb uint32) mapNode[K, V] {
+//@ 	// a bitmap-indexed root with one slot holding the two-key subtrie (as below a converted array node)
+//@ 	return &mapBitmapIndexedNode[K, V]{bitmap: uint32(1) << (ha & mapNodeMask), nodes: []mapNode[K, V]{trieOf2(h, a, b, va, vb, ha, hb)}}
+//@ }
+//@ func scriptTrieSet[K, V any](h fp.Hashable[K], a, b, c K, va, vb, vc V, ha, hb, hc uint32, mutable bool) bool {
+//@ 	if h.Eqv(a, b) || !trieConsistent(h, a, c, ha, hc) || !trieConsistent(h, b, c, hb, hc) || (ha&mapNodeMask) != (hb&mapNodeMask) {
+//@ 		return true
+//@ 	}
+//@ 	n := trieRoot(h, a, b, va, vb, ha, hb)
+//@ 	var resized bool
+//@ 	n2 := n.set(c, vc, 0, hc, h, mutable, &resized)
+//@ 	if !trieHas(n2, h, c, hc, vc) {
+//@ 		return false
+//@ 	}
+//@ 	if !h.Eqv(a, c) && !trieHas(n2, h, a, ha, va) {
+//@ 		return false
+//@ 	}
+//@ 	if !h.Eqv(b, c) && !trieHas(n2, h, b, hb, vb) {
+//@ 		return false
+//@ 	}
+//@ 	if resized != (!h.Eqv(a, c) && !h.Eqv(b, c)) {
+//@ 		return false
+//@ 	}
+//@ 	if mutable {
+//@ 		return true
+//@ 	}
+//@ 	// persistent: the old trie still holds what it held
+//@ 	return trieHas(n, h, a, ha, va) && trieHas(n, h, b, hb, vb) && (h.Eqv(a, c) || h.Eqv(b, c) || trieLacks(n, h, c, hc))
+//@ }
+//@ func scriptTrieDelete[K, V any](h fp.Hashable[K], a, b, c K, va, vb V, ha, hb, hc uint32, mutable bool) bool {
+//@ 	if h.Eqv(a, b) || !trieConsistent(h, a, c, ha, hc) || !trieConsistent(h, b, c, hb, hc) || (ha&mapNodeMask) != (hb&mapNodeMask) {
+//@ 		return true
+//@ 	}
+//@ 	n := trieRoot(h, a, b, va, vb, ha, hb)
+//@ 	var resized bool
+//@ 	n2 := n.delete(c, 0, hc, h, mutable, &resized)
+//@ 	if resized != (h.Eqv(a, c) || h.Eqv(b, c)) {
+//@ 		return false
+//@ 	}
+//@ 	if !trieLacks(n2, h, c, hc) {
+//@ 		return false
+//@ 	}
+//@ 	if !h.Eqv(a, c) && !trieHas(n2, h, a, ha, va) {
+//@ 		return false
+//@ 	}
+//@ 	if !h.Eqv(b, c) && !trieHas(n2, h, b, hb, vb) {
+//@ 		return false
+//@ 	}
+//@ 	if !mutable && (!trieHas(n, h, a, ha, va) || !trieHas(n, h, b, hb, vb)) {
+//@ 		return false
+//@ 	}
+//@ 	if !resized {
+//@ 		return true
+//@ 	}
+//@ 	// removing the remaining key empties the trie: the result is nil, never an empty branch node
+//@ 	var r2 bool
+//@ 	if h.Eqv(a, c) {
+//@ 		return n2.delete(b, 0, hb, h, mutable, &r2) == nil && r2
+//@ 	}
+//@ 	return n2.delete(a, 0, ha, h, mutable, &r2) == nil && r2
+//@ }
+//@ func scriptTrieIterate[K, V any](h fp.Hashable[K], a, b, c K, va, vb, vc V, ha, hb, hc uint32) bool {
+//@ 	if h.Eqv(a, b) || h.Eqv(a, c) || h.Eqv(b, c) || !trieConsistent(h, a, c, ha, hc) || !trieConsistent(h, b, c, hb, hc) || (ha&mapNodeMask) != (hb&mapNodeMask) {
+//@ 		return true
+//@ 	}
+//@ 	var resized bool
+//@ 	root := trieRoot(h, a, b, va, vb, ha, hb).set(c, vc, 0, hc, h, false, &resized)
+//@ 	it := MapIterator(&hamt[K, V]{root: root, size: 3, hasher: h})
+//@ 	if !it.HasNext() {
+//@ 		return false
+//@ 	}
+//@ 	e1 := it.Next()
+//@ 	if !it.HasNext() {
+//@ 		return false
+//@ 	}
+//@ 	e2 := it.Next()
+//@ 	if !it.HasNext() {
+//@ 		return false
+//@ 	}
+//@ 	e3 := it.Next()
+//@ 	if it.HasNext() {
+//@ 		return false // exactly Size() entries
+//@ 	}
+//@ 	// each of the three entries is yielded (so, with three yields, exactly once)
+//@ 	ya := (Eq(e1.I1, a) && Eq(e1.I2, va)) || (Eq(e2.I1, a) && Eq(e2.I2, va)) || (Eq(e3.I1, a) && Eq(e3.I2, va))
+//@ 	yb := (Eq(e1.I1, b) && Eq(e1.I2, vb)) || (Eq(e2.I1, b) && Eq(e2.I2, vb)) || (Eq(e3.I1, b) && Eq(e3.I2, vb))
+//@ 	yc := (Eq(e1.I1, c) && Eq(e1.I2, vc)) || (Eq(e2.I1, c) && Eq(e2.I2, vc)) || (Eq(e3.I1, c) && Eq(e3.I2, vc))
+//@ 	return ya && yb && yc && !Eq(e1.I1, e2.I1) && !Eq(e1.I1, e3.I1) && !Eq(e2.I1, e3.I1)
+//@ }
+//@ func scriptTrieConvert[K, V any](h fp.Hashable[K], k0, k1, k2, k3, k4, k5, k6, k7, k8, k9, k10, k11, k12, k13, k14, k15, k16, k17 K, v0, v1, v2, v3, v4, v5, v6, v7, v8, v9, v10, v11, v12, v13, v14, v15, v16, v17 V, mutable bool) bool {
+//@ 	var r bool
+//@ 	var n mapNode[K, V] = mergeIntoNode[K, V](newMapValueNode(0, k0, v0), 0, 1, k1, v1)
+//@ 	n = n.set(k2, v2, 0, 2, h, false, &r)
+//@ 	n = n.set(k3, v3, 0, 3, h, false, &r)
+//@ 	n = n.set(k4, v4, 0, 4, h, false, &r)
+//@ 	n = n.set(k5, v5, 0, 5, h, false, &r)
+//@ 	n = n.set(k6, v6, 0, 6, h, false, &r)
+//@ 	n = n.set(k7, v7, 0, 7, h, false, &r)
+//@ 	n = n.set(k8, v8, 0, 8, h, false, &r)
+//@ 	n = n.set(k9, v9, 0, 9, h, false, &r)
+//@ 	n = n.set(k10, v10, 0, 10, h, false, &r)
+//@ 	n = n.set(k11, v11, 0, 11, h, false, &r)
+//@ 	n = n.set(k12, v12, 0, 12, h, false, &r)
+//@ 	n = n.set(k13, v13, 0, 13, h, false, &r)
+//@ 	n = n.set(k14, v14, 0, 14, h, false, &r)
+//@ 	n = n.set(k15, v15, 0, 15, h, false, &r)
+//@ 	n = n.set(k16, v16, 0, 31, h, false, &r)
+//@ 	bm, isBitmap := n.(*mapBitmapIndexedNode[K, V])
+//@ 	if !isBitmap || len(bm.nodes) != 17 {
+//@ 		return false
+//@ 	}
+//@ 	r = false
+//@ 	n2 := n.set(k17, v17, 0, 20, h, mutable, &r) // the 18th fragment: conversion into a hash-array node
+//@ 	ha, isHashArray := n2.(*mapHashArrayNode[K, V])
+//@ 	if !r || !isHashArray || ha.count != 18 {
+//@ 		return false
+//@ 	}
+//@ 	return trieHas(n2, h, k0, 0, v0) && trieHas(n2, h, k1, 1, v1) && trieHas(n2, h, k2, 2, v2) && trieHas(n2, h, k3, 3, v3) && trieHas(n2, h, k4, 4, v4) && trieHas(n2, h, k5, 5, v5) && trieHas(n2, h, k6, 6, v6) && trieHas(n2, h, k7, 7, v7) && trieHas(n2, h, k8, 8, v8) && trieHas(n2, h, k9, 9, v9) && trieHas(n2, h, k10, 10, v10) && trieHas(n2, h, k11, 11, v11) && trieHas(n2, h, k12, 12, v12) && trieHas(n2, h, k13, 13, v13) && trieHas(n2, h, k14, 14, v14) && trieHas(n2, h, k15, 15, v15) && trieHas(n2, h, k16, 31, v16) && trieHas(n2, h, k17, 20, v17)
+//@ }
+//@ end
+//
+//@ lemma trieBoundedSet[K, V any](h fp.Hashable[K], a, b, c K, va, vb, vc V)
+//@   prop C03 C04
+//@   option unroll
+//@   option noghost
+//@   option frame=off
+//@   requires veriflaws.HashLaws(h)
+//@   ensures scriptTrieSet(h, a, b, c, va, vb, vc, 1, 33, 0, false)
+//@   tag set_1_33_0_imm
+//@   ensures scriptTrieSet(h, a, b, c, va, vb, vc, 1, 33, 0, true)
+//@   tag set_1_33_0_mut
+//@   ensures scriptTrieSet(h, a, b, c, va, vb, vc, 1, 33, 2, false)
+//@   tag set_1_33_2_imm
+//@   ensures scriptTrieSet(h, a, b, c, va, vb, vc, 1, 33, 2, true)
+//@   tag set_1_33_2_mut
+//@   ensures scriptTrieSet(h, a, b, c, va, vb, vc, 1, 33, 1, false)
+//@   tag set_1_33_1_imm
+//@   ensures scriptTrieSet(h, a, b, c, va, vb, vc, 1, 33, 1, true)
+//@   tag set_1_33_1_mut
+//@   ensures scriptTrieSet(h, a, b, c, va, vb, vc, 1, 33, 33, false)
+//@   tag set_1_33_33_imm
+//@   ensures scriptTrieSet(h, a, b, c, va, vb, vc, 1, 33, 33, true)
+//@   tag set_1_33_33_mut
+//@   ensures scriptTrieSet(h, a, b, c, va, vb, vc, 1, 33, 65, false)
+//@   tag set_1_33_65_imm
+//@   ensures scriptTrieSet(h, a, b, c, va, vb, vc, 1, 33, 65, true)
+//@   tag set_1_33_65_mut
+//@   ensures scriptTrieSet(h, a, b, c, va, vb, vc, 1, 33, 1025, false)
+//@   tag set_1_33_1025_imm
+//@   ensures scriptTrieSet(h, a, b, c, va, vb, vc, 1, 33, 1025, true)
+//@   tag set_1_33_1025_mut
+//@   ensures scriptTrieSet(h, a, b, c, va, vb, vc, 1, 33, 2049, false)
+//@   tag set_1_33_2049_imm
+//@   ensures scriptTrieSet(h, a, b, c, va, vb, vc, 1, 33, 2049, true)
+//@   tag set_1_33_2049_mut
+//@   ensures scriptTrieSet(h, a, b, c, va, vb, vc, 1, 33, 993, false)
+//@   tag set_1_33_993_imm
+//@   ensures scriptTrieSet(h, a, b, c, va, vb, vc, 1, 33, 993, true)
+//@   tag set_1_33_993_mut
+//@   ensures scriptTrieSet(h, a, b, c, va, vb, vc, 33, 1, 0, false)
+//@   tag set_33_1_0_imm
+//@   ensures scriptTrieSet(h, a, b, c, va, vb, vc, 33, 1, 0, true)
+//@   tag set_33_1_0_mut
+//@   ensures scriptTrieSet(h, a, b, c, va, vb, vc, 33, 1, 2, false)
+//@   tag set_33_1_2_imm
+//@   ensures scriptTrieSet(h, a, b, c, va, vb, vc, 33, 1, 2, true)
+//@   tag set_33_1_2_mut
+//@   ensures scriptTrieSet(h, a, b, c, va, vb, vc, 33, 1, 1, false)
+//@   tag set_33_1_1_imm
+//@   ensures scriptTrieSet(h, a, b, c, va, vb, vc, 33, 1, 1, true)
+//@   tag set_33_1_1_mut
+//@   ensures scriptTrieSet(h, a, b, c, va, vb, vc, 33, 1, 33, false)
+//@   tag set_33_1_33_imm
+//@   ensures scriptTrieSet(h, a, b, c, va, vb, vc, 33, 1, 33, true)
+//@   tag set_33_1_33_mut
+//@   ensures scriptTrieSet(h, a, b, c, va, vb, vc, 33, 1, 65, false)
+//@   tag set_33_1_65_imm
+//@   ensures scriptTrieSet(h, a, b, c, va, vb, vc, 33, 1, 65, true)
+//@   tag set_33_1_65_mut
+//@   ensures scriptTrieSet(h, a, b, c, va, vb, vc, 33, 1, 1025, false)
+//@   tag set_33_1_1025_imm
+//@   ensures scriptTrieSet(h, a, b, c, va, vb, vc, 33, 1, 1025, true)
+//@   tag set_33_1_1025_mut
+//@   ensures scriptTrieSet(h, a, b, c, va, vb, vc, 33, 1, 2049, false)
+//@   tag set_33_1_2049_imm
+//@   ensures scriptTrieSet(h, a, b, c, va, vb, vc, 33, 1, 2049, true)
+//@   tag set_33_1_2049_mut
+//@   ensures scriptTrieSet(h, a, b, c, va, vb, vc, 33, 1, 993, false)
+//@   tag set_33_1_993_imm
+//@   ensures scriptTrieSet(h, a, b, c, va, vb, vc, 33, 1, 993, true)
+//@   tag set_33_1_993_mut
+//@   ensures scriptTrieSet(h, a, b, c, va, vb, vc, 1, 1025, 0, false)
+//@   tag set_1_1025_0_imm
+//@   ensures scriptTrieSet(h, a, b, c, va, vb, vc, 1, 1025, 0, true)
+//@   tag set_1_1025_0_mut
+//@   ensures scriptTrieSet(h, a, b, c, va, vb, vc, 1, 1025, 2, false)
+//@   tag set_1_1025_2_imm
+//@   ensures scriptTrieSet(h, a, b, c, va, vb, vc, 1, 1025, 2, true)
+//@   tag set_1_1025_2_mut
+//@   ensures scriptTrieSet(h, a, b, c, va, vb, vc, 1, 1025, 1, false)
+//@   tag set_1_1025_1_imm
+//@   ensures scriptTrieSet(h, a, b, c, va, vb, vc, 1, 1025, 1, true)
+//@   tag set_1_1025_1_mut
+//@   ensures scriptTrieSet(h, a, b, c, va, vb, vc, 1, 1025, 33, false)
+//@   tag set_1_1025_33_imm
+//@   ensures scriptTrieSet(h, a, b, c, va, vb, vc, 1, 1025, 33, true)
+//@   tag set_1_1025_33_mut
+//@   ensures scriptTrieSet(h, a, b, c, va, vb, vc, 1, 1025, 65, false)
+//@   tag set_1_1025_65_imm
+//@   ensures scriptTrieSet(h, a, b, c, va, vb, vc, 1, 1025, 65, true)
+//@   tag set_1_1025_65_mut
+//@   ensures scriptTrieSet(h, a, b, c, va, vb, vc, 1, 1025, 1025, false)
+//@   tag set_1_1025_1025_imm
+//@   ensures scriptTrieSet(h, a, b, c, va, vb, vc, 1, 1025, 1025, true)
+//@   tag set_1_1025_1025_mut
+//@   ensures scriptTrieSet(h, a, b, c, va, vb, vc, 1, 1025, 2049, false)
+//@   tag set_1_1025_2049_imm
+//@   ensures scriptTrieSet(h, a, b, c, va, vb, vc, 1, 1025, 2049, true)
+//@   tag set_1_1025_2049_mut
+//@   ensures scriptTrieSet(h, a, b, c, va, vb, vc, 1, 1025, 993, false)
+//@   tag set_1_1025_993_imm
+//@   ensures scriptTrieSet(h, a, b, c, va, vb, vc, 1, 1025, 993, true)
+//@   tag set_1_1025_993_mut
+//@   ensures scriptTrieSet(h, a, b, c, va, vb, vc, 1, 1, 0, false)
+//@   tag set_1_1_0_imm
+//@   ensures scriptTrieSet(h, a, b, c, va, vb, vc, 1, 1, 0, true)
+//@   tag set_1_1_0_mut
+//@   ensures scriptTrieSet(h, a, b, c, va, vb, vc, 1, 1, 2, false)
+//@   tag set_1_1_2_imm
+//@   ensures scriptTrieSet(h, a, b, c, va, vb, vc, 1, 1, 2, true)
+//@   tag set_1_1_2_mut
+//@   ensures scriptTrieSet(h, a, b, c, va, vb, vc, 1, 1, 1, false)
+//@   tag set_1_1_1_imm
+//@   ensures scriptTrieSet(h, a, b, c, va, vb, vc, 1, 1, 1, true)
+//@   tag set_1_1_1_mut
+//@   ensures scriptTrieSet(h, a, b, c, va, vb, vc, 1, 1, 33, false)
+//@   tag set_1_1_33_imm
+//@   ensures scriptTrieSet(h, a, b, c, va, vb, vc, 1, 1, 33, true)
+//@   tag set_1_1_33_mut
+//@   ensures scriptTrieSet(h, a, b, c, va, vb, vc, 1, 1, 65, false)
+//@   tag set_1_1_65_imm
+//@   ensures scriptTrieSet(h, a, b, c, va, vb, vc, 1, 1, 65, true)
+//@   tag set_1_1_65_mut
+//@   ensures scriptTrieSet(h, a, b, c, va, vb, vc, 1, 1, 1025, false)
+//@   tag set_1_1_1025_imm
+//@   ensures scriptTrieSet(h, a, b, c, va, vb, vc, 1, 1, 1025, true)
+//@   tag set_1_1_1025_mut
+//@   ensures scriptTrieSet(h, a, b, c, va, vb, vc, 1, 1, 2049, false)
+//@   tag set_1_1_2049_imm
+//@   ensures scriptTrieSet(h, a, b, c, va, vb, vc, 1, 1, 2049, true)
+//@   tag set_1_1_2049_mut
+//@   ensures scriptTrieSet(h, a, b, c, va, vb, vc, 1, 1, 993, false)
+//@   tag set_1_1_993_imm
+//@   ensures scriptTrieSet(h, a, b, c, va, vb, vc, 1, 1, 993, true)
+//@   tag set_1_1_993_mut
+//
+//@ lemma trieBoundedDelete[K, V any](h fp.Hashable[K], a, b, c K, va, vb V)
+//@   prop C03 C04
+//@   option unroll
+//@   option noghost
+//@   option frame=off
+//@   requires veriflaws.HashLaws(h)
+//@   ensures scriptTrieDelete(h, a, b, c, va, vb, 1, 33, 0, false)
+//@   tag del_1_33_0_imm
+//@   ensures scriptTrieDelete(h, a, b, c, va, vb, 1, 33, 0, true)
+//@   tag del_1_33_0_mut
+//@   ensures scriptTrieDelete(h, a, b, c, va, vb, 1, 33, 2, false)
+//@   tag del_1_33_2_imm
+//@   ensures scriptTrieDelete(h, a, b, c, va, vb, 1, 33, 2, true)
+//@   tag del_1_33_2_mut
+//@   ensures scriptTrieDelete(h, a, b, c, va, vb, 1, 33, 1, false)
+//@   tag del_1_33_1_imm
+//@   ensures scriptTrieDelete(h, a, b, c, va, vb, 1, 33, 1, true)
+//@   tag del_1_33_1_mut
+//@   ensures scriptTrieDelete(h, a, b, c, va, vb, 1, 33, 33, false)
+//@   tag del_1_33_33_imm
+//@   ensures scriptTrieDelete(h, a, b, c, va, vb, 1, 33, 33, true)
+//@   tag del_1_33_33_mut
+//@   ensures scriptTrieDelete(h, a, b, c, va, vb, 1, 33, 65, false)
+//@   tag del_1_33_65_imm
+//@   ensures scriptTrieDelete(h, a, b, c, va, vb, 1, 33, 65, true)
+//@   tag del_1_33_65_mut
+//@   ensures scriptTrieDelete(h, a, b, c, va, vb, 1, 33, 1025, false)
+//@   tag del_1_33_1025_imm
+//@   ensures scriptTrieDelete(h, a, b, c, va, vb, 1, 33, 1025, true)
+//@   tag del_1_33_1025_mut
+//@   ensures scriptTrieDelete(h, a, b, c, va, vb, 1, 33, 2049, false)
+//@   tag del_1_33_2049_imm
+//@   ensures scriptTrieDelete(h, a, b, c, va, vb, 1, 33, 2049, true)
+//@   tag del_1_33_2049_mut
+//@   ensures scriptTrieDelete(h, a, b, c, va, vb, 1, 33, 993, false)
+//@   tag del_1_33_993_imm
+//@   ensures scriptTrieDelete(h, a, b, c, va, vb, 1, 33, 993, true)
+//@   tag del_1_33_993_mut
+//@   ensures scriptTrieDelete(h, a, b, c, va, vb, 33, 1, 0, false)
+//@   tag del_33_1_0_imm
+//@   ensures scriptTrieDelete(h, a, b, c, va, vb, 33, 1, 0, true)
+//@   tag del_33_1_0_mut
+//@   ensures scriptTrieDelete(h, a, b, c, va, vb, 33, 1, 2, false)
+//@   tag del_33_1_2_imm
+//@   ensures scriptTrieDelete(h, a, b, c, va, vb, 33, 1, 2, true)
+//@   tag del_33_1_2_mut
+//@   ensures scriptTrieDelete(h, a, b, c, va, vb, 33, 1, 1, false)
+//@   tag del_33_1_1_imm
+//@   ensures scriptTrieDelete(h, a, b, c, va, vb, 33, 1, 1, true)
+//@   tag del_33_1_1_mut
+//@   ensures scriptTrieDelete(h, a, b, c, va, vb, 33, 1, 33, false)
+//@   tag del_33_1_33_imm
+//@   ensures scriptTrieDelete(h, a, b, c, va, vb, 33, 1, 33, true)
+//@   tag del_33_1_33_mut
+//@   ensures scriptTrieDelete(h, a, b, c, va, vb, 33, 1, 65, false)
+//@   tag del_33_1_65_imm
+//@   ensures scriptTrieDelete(h, a, b, c, va, vb, 33, 1, 65, true)
+//@   tag del_33_1_65_mut
+//@   ensures scriptTrieDelete(h, a, b, c, va, vb, 33, 1, 1025, false)
+//@   tag del_33_1_1025_imm
+//@   ensures scriptTrieDelete(h, a, b, c, va, vb, 33, 1, 1025, true)
+//@   tag del_33_1_1025_mut
+//@   ensures scriptTrieDelete(h, a, b, c, va, vb, 33, 1, 2049, false)
+//@   tag del_33_1_2049_imm
+//@   ensures scriptTrieDelete(h, a, b, c, va, vb, 33, 1, 2049, true)
+//@   tag del_33_1_2049_mut
+//@   ensures scriptTrieDelete(h, a, b, c, va, vb, 33, 1, 993, false)
+//@   tag del_33_1_993_imm
+//@   ensures scriptTrieDelete(h, a, b, c, va, vb, 33, 1, 993, true)
+//@   tag del_33_1_993_mut
+//@   ensures scriptTrieDelete(h, a, b, c, va, vb, 1, 1025, 0, false)
+//@   tag del_1_1025_0_imm
+//@   ensures scriptTrieDelete(h, a, b, c, va, vb, 1, 1025, 0, true)
+//@   tag del_1_1025_0_mut
+//@   ensures scriptTrieDelete(h, a, b, c, va, vb, 1, 1025, 2, false)
+//@   tag del_1_1025_2_imm
+//@   ensures scriptTrieDelete(h, a, b, c, va, vb, 1, 1025, 2, true)
+//@   tag del_1_1025_2_mut
+//@   ensures scriptTrieDelete(h, a, b, c, va, vb, 1, 1025, 1, false)
+//@   tag del_1_1025_1_imm
+//@   ensures scriptTrieDelete(h, a, b, c, va, vb, 1, 1025, 1, true)
+//@   tag del_1_1025_1_mut
+//@   ensures scriptTrieDelete(h, a, b, c, va, vb, 1, 1025, 33, false)
+//@   tag del_1_1025_33_imm
+//@   ensures scriptTrieDelete(h, a, b, c, va, vb, 1, 1025, 33, true)
+//@   tag del_1_1025_33_mut
+//@   ensures scriptTrieDelete(h, a, b, c, va, vb, 1, 1025, 65, false)
+//@   tag del_1_1025_65_imm
+//@   ensures scriptTrieDelete(h, a, b, c, va, vb, 1, 1025, 65, true)
+//@   tag del_1_1025_65_mut
+//@   ensures scriptTrieDelete(h, a, b, c, va, vb, 1, 1025, 1025, false)
+//@   tag del_1_1025_1025_imm
+//@   ensures scriptTrieDelete(h, a, b, c, va, vb, 1, 1025, 1025, true)
+//@   tag del_1_1025_1025_mut
+//@   ensures scriptTrieDelete(h, a, b, c, va, vb, 1, 1025, 2049, false)
+//@   tag del_1_1025_2049_imm
+//@   ensures scriptTrieDelete(h, a, b, c, va, vb, 1, 1025, 2049, true)
+//@   tag del_1_1025_2049_mut
+//@   ensures scriptTrieDelete(h, a, b, c, va, vb, 1, 1025, 993, false)
+//@   tag del_1_1025_993_imm
+//@   ensures scriptTrieDelete(h, a, b, c, va, vb, 1, 1025, 993, true)
+//@   tag del_1_1025_993_mut
+//@   ensures scriptTrieDelete(h, a, b, c, va, vb, 1, 1, 0, false)
+//@   tag del_1_1_0_imm
+//@   ensures scriptTrieDelete(h, a, b, c, va, vb, 1, 1, 0, true)
+//@   tag del_1_1_0_mut
+//@   ensures scriptTrieDelete(h, a, b, c, va, vb, 1, 1, 2, false)
+//@   tag del_1_1_2_imm
+//@   ensures scriptTrieDelete(h, a, b, c, va, vb, 1, 1, 2, true)
+//@   tag del_1_1_2_mut
+//@   ensures scriptTrieDelete(h, a, b, c, va, vb, 1, 1, 1, false)
+//@   tag del_1_1_1_imm
+//@   ensures scriptTrieDelete(h, a, b, c, va, vb, 1, 1, 1, true)
+//@   tag del_1_1_1_mut
+//@   ensures scriptTrieDelete(h, a, b, c, va, vb, 1, 1, 33, false)
+//@   tag del_1_1_33_imm
+//@   ensures scriptTrieDelete(h, a, b, c, va, vb, 1, 1, 33, true)
+//@   tag del_1_1_33_mut
+//@   ensures scriptTrieDelete(h, a, b, c, va, vb, 1, 1, 65, false)
+//@   tag del_1_1_65_imm
+//@   ensures scriptTrieDelete(h, a, b, c, va, vb, 1, 1, 65, true)
+//@   tag del_1_1_65_mut
+//@   ensures scriptTrieDelete(h, a, b, c, va, vb, 1, 1, 1025, false)
+//@   tag del_1_1_1025_imm
+//@   ensures scriptTrieDelete(h, a, b, c, va, vb, 1, 1, 1025, true)
+//@   tag del_1_1_1025_mut
+//@   ensures scriptTrieDelete(h, a, b, c, va, vb, 1, 1, 2049, false)
+//@   tag del_1_1_2049_imm
+//@   ensures scriptTrieDelete(h, a, b, c, va, vb, 1, 1, 2049, true)
+//@   tag del_1_1_2049_mut
+//@   ensures scriptTrieDelete(h, a, b, c, va, vb, 1, 1, 993, false)
+//@   tag del_1_1_993_imm
+//@   ensures scriptTrieDelete(h, a, b, c, va, vb, 1, 1, 993, true)
+//@   tag del_1_1_993_mut
+//
+//@ lemma trieBoundedIterate[K, V any](h fp.Hashable[K], a, b, c K, va, vb, vc V)
+//@   prop C03
+//@   option unroll
+//@   option noghost
+//@   option frame=off
+//@   requires veriflaws.HashLaws(h) && !Eq(a, b) && !Eq(a, c) && !Eq(b, c)
+//@   ensures scriptTrieIterate(h, a, b, c, va, vb, vc, 1, 33, 0)
+//@   tag iter_1_33_0
+//@   ensures scriptTrieIterate(h, a, b, c, va, vb, vc, 1, 33, 2)
+//@   tag iter_1_33_2
+//@   ensures scriptTrieIterate(h, a, b, c, va, vb, vc, 1, 33, 1)
+//@   tag iter_1_33_1
+//@   ensures scriptTrieIterate(h, a, b, c, va, vb, vc, 1, 33, 33)
+//@   tag iter_1_33_33
+//@   ensures scriptTrieIterate(h, a, b, c, va, vb, vc, 1, 33, 65)
+//@   tag iter_1_33_65
+//@   ensures scriptTrieIterate(h, a, b, c, va, vb, vc, 1, 33, 1025)
+//@   tag iter_1_33_1025
+//@   ensures scriptTrieIterate(h, a, b, c, va, vb, vc, 1, 33, 2049)
+//@   tag iter_1_33_2049
+//@   ensures scriptTrieIterate(h, a, b, c, va, vb, vc, 1, 33, 993)
+//@   tag iter_1_33_993
+//@   ensures scriptTrieIterate(h, a, b, c, va, vb, vc, 33, 1, 0)
+//@   tag iter_33_1_0
+//@   ensures scriptTrieIterate(h, a, b, c, va, vb, vc, 33, 1, 2)
+//@   tag iter_33_1_2
+//@   ensures scriptTrieIterate(h, a, b, c, va, vb, vc, 33, 1, 1)
+//@   tag iter_33_1_1
+//@   ensures scriptTrieIterate(h, a, b, c, va, vb, vc, 33, 1, 33)
+//@   tag iter_33_1_33
+//@   ensures scriptTrieIterate(h, a, b, c, va, vb, vc, 33, 1, 65)
+//@   tag iter_33_1_65
+//@   ensures scriptTrieIterate(h, a, b, c, va, vb, vc, 33, 1, 1025)
+//@   tag iter_33_1_1025
+//@   ensures scriptTrieIterate(h, a, b, c, va, vb, vc, 33, 1, 2049)
+//@   tag iter_33_1_2049
+//@   ensures scriptTrieIterate(h, a, b, c, va, vb, vc, 33, 1, 993)
+//@   tag iter_33_1_993
+//@   ensures scriptTrieIterate(h, a, b, c, va, vb, vc, 1, 1025, 0)
+//@   tag iter_1_1025_0
+//@   ensures scriptTrieIterate(h, a, b, c, va, vb, vc, 1, 1025, 2)
+//@   tag iter_1_1025_2
+//@   ensures scriptTrieIterate(h, a, b, c, va, vb, vc, 1, 1025, 1)
+//@   tag iter_1_1025_1
+//@   ensures scriptTrieIterate(h, a, b, c, va, vb, vc, 1, 1025, 33)
+//@   tag iter_1_1025_33
+//@   ensures scriptTrieIterate(h, a, b, c, va, vb, vc, 1, 1025, 65)
+//@   tag iter_1_1025_65
+//@   ensures scriptTrieIterate(h, a, b, c, va, vb, vc, 1, 1025, 1025)
+//@   tag iter_1_1025_1025
+//@   ensures scriptTrieIterate(h, a, b, c, va, vb, vc, 1, 1025, 2049)
+//@   tag iter_1_1025_2049
+//@   ensures scriptTrieIterate(h, a, b, c, va, vb, vc, 1, 1025, 993)
+//@   tag iter_1_1025_993
+//@   ensures scriptTrieIterate(h, a, b, c, va, vb, vc, 1, 1, 0)
+//@   tag iter_1_1_0
+//@   ensures scriptTrieIterate(h, a, b, c, va, vb, vc, 1, 1, 2)
+//@   tag iter_1_1_2
+//@   ensures scriptTrieIterate(h, a, b, c, va, vb, vc, 1, 1, 1)
+//@   tag iter_1_1_1
+//@   ensures scriptTrieIterate(h, a, b, c, va, vb, vc, 1, 1, 33)
+//@   tag iter_1_1_33
+//@   ensures scriptTrieIterate(h, a, b, c, va, vb, vc, 1, 1, 65)
+//@   tag iter_1_1_65
+//@   ensures scriptTrieIterate(h, a, b, c, va, vb, vc, 1, 1, 1025)
+//@   tag iter_1_1_1025
+//@   ensures scriptTrieIterate(h, a, b, c, va, vb, vc, 1, 1, 2049)
+//@   tag iter_1_1_2049
+//@   ensures scriptTrieIterate(h, a, b, c, va, vb, vc, 1, 1, 993)
+//@   tag iter_1_1_993
+//
+//@ lemma trieBoundedConvert[K, V any](h fp.Hashable[K], k0, k1, k2, k3, k4, k5, k6, k7, k8, k9, k10, k11, k12, k13, k14, k15, k16, k17 K, v0, v1, v2, v3, v4, v5, v6, v7, v8, v9, v10, v11, v12, v13, v14, v15, v16, v17 V)
+//@   prop C03 C04
+//@   option unroll
+//@   option noghost
+//@   option frame=off
+//@   requires veriflaws.HashLaws(h)
+//@   ensures scriptTrieConvert(h, k0, k1, k2, k3, k4, k5, k6, k7, k8, k9, k10, k11, k12, k13, k14, k15, k16, k17, v0, v1, v2, v3, v4, v5, v6, v7, v8, v9, v10, v11, v12, v13, v14, v15, v16, v17, false)
+//@   tag persistent
+//@   ensures scriptTrieConvert(h, k0, k1, k2, k3, k4, k5, k6, k7, k8, k9, k10, k11, k12, k13, k14, k15, k16, k17, v0, v1, v2, v3, v4, v5, v6, v7, v8, v9, v10, v11, v12, v13, v14, v15, v16, v17, true)
+//@   tag mutable
